@@ -538,7 +538,7 @@ def run_observable(ctx, lin, exes, variants, n_per_variant, stats, corpus=()):
     jobs = []
     for v in variants:
         rng = ctx.rng.fork()
-        cases = [c for c in corpus if c.get("variant") == v]
+        cases = [c for c in corpus if c.get("variant") == v and not c.get("step")]
         cases += [gen_case(rng, v, "v%d_%d" % (v, i)) for i in range(n_per_variant)]
         jobs.append((v, cases))
     viol = []
@@ -566,6 +566,122 @@ def report_hangs(ctx, stats):
     ctx.coverage["liveness_observations"] = {"cases_that_never_finished": len(hangs), "replays": out}
 
 
+# ---------------------------------------------------------------------------------------------------------
+# step correspondence: LV.Model.SkipList vs cds::intrusive::SkipListSet<HP> (harness/C15/step_skip.cpp)
+
+def gen_step_case(rng, cid):
+    nth = 1 + rng.below(3)
+    cfg = [rng.below(16)] + [rng.choice([0, 0, 1, 2]) for _ in range(4)]
+    threads = []
+    for t in range(nth):
+        ops = []
+        for _ in range(1 + rng.below(3)):
+            c = rng.choice([1, 1, 6, 6, 10, 13, 14])
+            if c == 1:
+                ops.append([1, rng.below(4), rng.choice([0, 0, 1, 2])])
+            elif c in (6, 10):
+                ops.append([c, rng.below(4)])
+            else:
+                ops.append([c])
+        threads.append(ops)
+    kind = rng.below(4)
+    if kind == 0:
+        sched = [rng.below(nth) for _ in range(20 + rng.below(500))]
+    elif kind == 1:
+        sched = []
+        for _ in range(2 + rng.below(25)):
+            sched += [rng.below(nth)] * (1 + rng.below(70))
+    elif kind == 2:
+        sched = [rng.below(nth)] * (3 + rng.below(200)) + [rng.below(nth)] * (3 + rng.below(200)) + [rng.below(nth) for _ in range(200)]
+    else:
+        sched = []
+    return {"id": cid, "cfg": cfg, "threads": threads, "sched": sched}
+
+
+def step_history(case, lines):
+    """lincheck input of one step-harness log: prefilled keys first, then the inv/res events"""
+    h = []
+    for k in range(4):
+        if case["cfg"][0] & (1 << k):
+            h += ["inv 90 insert %d" % k, "res 90 true"]
+    cur = {}
+    for l in lines:
+        t = l.split(" ")
+        if len(t) < 3 or t[1] != "ev":
+            continue
+        tid = int(t[0])
+        if t[2] == "inv":
+            cur[tid] = (int(t[3]), int(t[4]), len(h))
+            h.append(None)
+        elif t[2] == "res" and tid in cur:
+            code, k, pos = cur.pop(tid)
+            a, b = int(t[3]), int(t[4])
+            if code == 1:
+                o, r = "insert %d" % k, B(a)
+            elif code == 6:
+                o, r = "erase %d" % k, B(a)
+            elif code == 10:
+                o, r = "contains %d" % k, B(a)
+            elif a:
+                o, r = "erase %d" % b, "true"
+            else:
+                o, r = ("extract_min" if code == 13 else "extract_max"), "none"
+            h[pos] = "inv %d %s" % (tid, o)
+            h.append("res %d %s" % (tid, r))
+    return [x if x is not None else "inv 99 contains 0" for x in h]
+
+
+def step_correspondence(ctx, lin):
+    import conc_check
+    model = conc_check.build_model(ctx, "Extract_SkipList.v", tag="skip_model")
+    hh = vcheck.file_hash([os.path.join(vcheck.VERIF, "harness", "C15", "step_skip.cpp")])
+    d = os.path.join(SHARED, "bin" + ("" if vcheck.REPO == "/repo" else "_" + hashlib.sha256(vcheck.REPO.encode()).hexdigest()[:8]))
+    impl = vcheck.cxx_build(os.path.join(vcheck.VERIF, "harness/C15/step_skip.cpp"), os.path.join(d, "step_skip"), hook=True)
+    n = 4000 if ctx.thorough() else 500
+    rng = ctx.rng.fork()
+    cases = [c for c in load_corpus("C15") if c.get("step")] + [gen_step_case(rng, "s%d" % i) for i in range(n)]
+    rc1, mlog, rc2, ilog, raw = conc_check.run_both(ctx, model, impl, cases, tag="skipstep", timeout=1500, fuel=60000)
+    diverged, steps, first = 0, 0, None
+    contended, shapes = 0, set()
+    for c in cases:
+        m, i = mlog.get(c["id"]), ilog.get(c["id"])
+        if m is None or i is None:
+            diverged += 1
+            first = first or (c, {"index": -1, "model": "<no output>" if m is None else "ok", "impl": "<no output>" if i is None else "ok", "prefix": []})
+            continue
+        steps += len(i["lines"])
+        dv = conc_check.compare(m, i)
+        shapes.add(hash(tuple(m["lines"])))
+        if any(" cas " in l and l.endswith(" 0") for l in m["lines"]):
+            contended += 1
+        if dv is not None:
+            diverged += 1
+            first = first or (c, dv)
+    if first is not None:
+        # the correspondence broke: look for a concrete non-linearizable history of the real skip list on these programs
+        hs = [step_history(c, ilog[c["id"]]["lines"]) for c in cases if c["id"] in ilog and ilog[c["id"]]["end"] == "finished"]
+        cs = [c for c in cases if c["id"] in ilog and ilog[c["id"]]["end"] == "finished"]
+        found = False
+        for v, c, h in zip(run_lincheck(lin, "set", hs, ctx.work, "skipstep"), cs, hs):
+            if v != "OK":
+                ctx.violation("intrusive::SkipListSet<HP> (step harness): history is not linearizable w.r.t. SetSpec (lincheck: %s)" % v,
+                              {"case": c, "history": h, "step": True})
+                found = True
+                break
+        if not found:
+            c, dv = first
+            ctx.violation("step correspondence between LV.Model.SkipList and cds/intrusive/impl/skip_list.h no longer holds",
+                          {"correspondence": "Model/SkipList.v vs cds::intrusive::SkipListSet<HP>", "case": c, "first_divergence": dv}, no_input=True)
+    ctx.coverage["step_correspondence"] = {
+        "modelled": "cds::intrusive::SkipListSet<HP>: insert, erase, contains (find_fastpath/slowpath), extract_min, extract_max with find_position, "
+                    "help_remove, renew_insert_position, insert_at_position, try_remove_at, find_min/max_position, HP guards, retire; c_nMaxHeight = 3, keys 0..3",
+        "cases": len(cases), "diverged": diverged, "impl_steps_compared": steps, "traces_validated_against_impl": len(cases) - diverged,
+        "distinct_event_logs": len(shapes), "cases_with_failed_cas": contended,
+        "rule": "1-3 threads x 1-3 operations, keys 0..3, prefilled subsets, tower heights 1..3; uniform / bursty / run-then-switch / round-robin schedules; "
+                "every atomic access (kind, canonical object, success) and every client event compared line by line"}
+    return diverged
+
+
 def load_corpus(pid):
     cdir = os.path.join(vcheck.VERIF, "corpus", pid)
     out = []
@@ -573,7 +689,9 @@ def load_corpus(pid):
         for f in sorted(os.listdir(cdir)):
             if f.endswith(".json"):
                 c = json.load(open(os.path.join(cdir, f)))
+                step = c.get("step", False)
                 c = c.get("case", c)
+                c["step"] = step
                 c["id"] = "corpus_" + f[:-5]
                 c["variant"] = c["cfg"][0]
                 out.append(c)
@@ -614,6 +732,7 @@ def run(ctx):
     report_hangs(ctx, stats)
     if not res.ok:
         ctx.violation("Coq obligations of C15 do not check: %s" % (res.failed[:2],), {"theorem": [f[2] for f in res.failed], "errors": res.failed[:3]}, no_input=True)
+    step_correspondence(ctx, lin)
     per = summarize(stats)
     tot = lambda k: sum(d[k] for d in per.values())
     sample = jobs[variants[0]][len(corpus):len(corpus) + 1]
